@@ -76,6 +76,12 @@ CLAIMED = {
                      "Partial: that each subscriber receives what it would have received alone is not proved as a bisimulation; it is decided on the implementation: every generated pipeline (C02-C04 operators, "
                      "cold per-attempt scripts, hot subjects, retry/retry_when) is subscribed 2-3 times to ONE Observable value - sequentially, nested from inside a callback, interleaved mid-stream, through retry - and "
                      "each subscriber's log must equal its log in the solitary scenario."),
+    "C15": dict(engine="coq-conc", design="DESIGN.md 6 C15",
+                technique="machine-checked proof in Coq (the interval/timer loop, the scheduler worker and observe_on's finalize protocol as transition systems: bounded exit after the end of the subscription, for every interleaving) + live-thread set and exit time read off a deterministic scheduling runtime in virtual time over a catalogue operator x terminating cause",
+                text="Theorems C15_loop_thread_exits (interval/timer: once the subscription has ended the thread exits within six of its own steps and sleeps at most once more), C15_observe_on_worker_exits (at quiescence the worker of an ended observe_on subscription has exited), "
+                     "C15_worker_exits_after_abort. PARTIAL: that every operator nesting them wires its finalize to the scheduler's abort is decided on the implementation. Tie: interval, timer, observe_on, subscribe_on, debounce, timeout, delay and nestings x complete / error / "
+                     "unsubscribe at a random virtual time / take / first / take_until / amb / retry downstream, once and three times in a row, random and PCT schedules in virtual time: no scheduler thread alive at quiescence, last thread gone at most one period after the end. "
+                     "One genuine defect found and repaired (D21: timeout kept its deadline timer for up to two periods)."),
     "C17": dict(engine="coq-seq", design="DESIGN.md 6 C17",
                 technique="machine-checked proof in Coq (slot-emptiness lemmas on the worklist machine, the frozen invariant for every continuation, the node-level teardown theorem for the whole catalogue) + reference-counted tokens in every callback, operator closure and item on the implementation",
                 text="Theorems C17_terminal_empties_the_slots / C17_unsubscribe_empties_the_slots / C17_slots_stay_empty / C17_upstream_slots_empty: a terminal that passes the gate and Observer::unsubscribe empty all callback "
